@@ -44,6 +44,22 @@ pub fn regex_case(sc: &Value) -> Value {
     json!({"one": one, "many": many})
 }
 
+/// {"s": "..."} -> TimeoutLimit::parse
+pub fn timeout_case(sc: &Value) -> Value {
+    let s = sc["s"].as_str().unwrap_or("");
+    match acts::TimeoutLimit::parse(s) {
+        Ok(l) => {
+            // as_secs multiplies in i64: guard the overflow instead of panicking
+            let r = std::panic::catch_unwind(|| l.as_secs());
+            match r {
+                Ok(v) => json!({"ok": true, "secs": v}),
+                Err(_) => json!({"ok": true, "overflow": true}),
+            }
+        }
+        Err(_) => json!({"ok": false}),
+    }
+}
+
 /// {"model": <workflow json>} -> serde round trips and the tree rendering
 pub fn model_case(sc: &Value) -> Value {
     let text = serde_json::to_string(&sc["model"]).unwrap();
